@@ -54,11 +54,9 @@ func (f *Frame) guardExempt(g *guardInfo) string {
 		ent = e.topEntry
 	}
 	a0 := e.comp(ent, "alloc", arrSort(sBool))
-	ex := []string{not(sel(a0, g.idx))} // allocated by this call: not yet shared
-	for _, u := range e.unshared {
-		ex = append(ex, eq(g.idx, u))
-	}
-	return or(ex...)
+	// allocated by this call (not yet shared), or in the ghost set of thread-private objects (`unshared` parameters,
+	// and whatever a precondition `exempt(x)` lets the function assume)
+	return or(not(sel(a0, g.idx)), sel(e.unshComp(), g.idx))
 }
 
 // guardAccess emits the obligation for one access.
@@ -110,3 +108,42 @@ func accessesGuarded(st *SortTable, guards map[string]string, fn *ssa.Function) 
 }
 
 var _ = types.Typ
+
+// unshComp: the ghost set of thread-private objects (constant during a call).
+func (e *Encoder) unshComp() string {
+	if !e.unshDecl {
+		e.unshDecl = true
+		saved := e.curBlk
+		e.curBlk = nil
+		e.emit("(declare-const UNSH (Array Int Bool))")
+		e.curBlk = saved
+	}
+	return "UNSH"
+}
+
+// callsGuardedPre: fn calls a function whose contract has a precondition tagged for the lock-discipline property
+// ("the caller holds the lock"): the call site has to be checked.
+func callsGuardedPre(ct *Contracts, fn *ssa.Function) bool {
+	for _, b := range fn.Blocks {
+		for _, ins := range b.Instrs {
+			c, ok := ins.(ssa.CallInstruction)
+			if !ok || c.Common().IsInvoke() {
+				continue
+			}
+			g, ok := c.Common().Value.(*ssa.Function)
+			if !ok {
+				continue
+			}
+			fc := ct.Funcs[qualName(g)]
+			if fc == nil {
+				continue
+			}
+			for _, cl := range fc.Requires {
+				if hasProp(cl.Props, guardProp) {
+					return true
+				}
+			}
+		}
+	}
+	return false
+}
